@@ -128,6 +128,7 @@ structure ImplSummary where
   hi : F64.Bits
   conf : F64.Bits
   warn : Bool
+  warnText : String   -- canonical warning tag of the harness ("-", "range", "need:ge:6")
   pct : String
 
 def okIf (b : Bool) (reason : String) : String := if b then "ok" else reason
@@ -214,7 +215,8 @@ def judgeExact (vals : List F64.Bits) (i : ImplSummary) : String :=
   showVerdicts [("centre", centre), ("ends", ends), ("bracket", bracket), ("conf", conf), ("warn", warn),
                 ("pct", judgePct i.center i.lo i.hi i.pct)]
 
-def judgeNothing (vals : List F64.Bits) (conf : F64.Bits) (qlo qhi : Nat) (i : ImplSummary) : String :=
+def judgeNothing (vals : List F64.Bits) (conf : F64.Bits) (qlo qhi : Nat) (needTab : List (Nat × Nat))
+    (i : ImplSummary) : String :=
   let xs := sortRat (vals.map toRat)
   let n := xs.length
   -- exact median
@@ -244,7 +246,16 @@ def judgeNothing (vals : List F64.Bits) (conf : F64.Bits) (qlo qhi : Nat) (i : I
       else "ok"
     | _, _ => "not-finite"
   let infEnd := F64.isInf i.lo || F64.isInf i.hi
-  let warn := okIf (i.warn == infEnd) (if infEnd then "missing-warning" else "spurious-warning")
+  -- the warning names the least sample size in 2..50 whose interval (external data) is finite
+  let needN := (List.range 49).find? fun k => match needTab[k]? with
+    | some (lo, hi) => 0 < lo && hi ≤ k + 2
+    | none => false
+  let wantText := match needN with
+    | some k => s!"need:ge:{k + 2}"
+    | none => "need:gt:50"
+  let warn :=
+    if i.warn != infEnd then (if infEnd then "missing-warning" else "spurious-warning")
+    else okIf (!infEnd || i.warnText == wantText) "wrong-sample-size"
   showVerdicts [("centre", centre), ("ends", ends), ("bracket", bracket), ("conf", confV), ("warn", warn),
                 ("pct", judgePct i.center i.lo i.hi i.pct)]
 
